@@ -295,8 +295,9 @@ func init() {
 				k := in.Call.Args[0]
 				agree := false
 				for _, g := range guardsOf(site.Block()) {
-					if b, ok := g.If.Cond.(*ssa.BinOp); ok && g.Branch && (b.Op == token.GEQ || b.Op == token.GTR) {
-						if sameArith(b.Y, k) {
+					// the relation that holds on the edge: `i >= k` taken, or `i < k` not taken
+					if op, _, y, ok := relationOnEdge(g.If.Cond, g.Branch); ok && (op == token.GEQ || op == token.GTR) {
+						if sameArith(y, k) {
 							agree = true
 						}
 					}
